@@ -268,12 +268,17 @@ class QueryGen:
         self.maxdepth = max(self.maxdepth, depth)
         r = self.r
         cls = self.model.ns["L%d" % level]
-        choices = ["m", "val", "fn", "tuple", "binop"]
+        choices = ["m", "val", "fn", "tuple", "binop", "called"]
         if level + 1 < LEVELS:
             choices += ["nest", "nest", "nest", "dictnest", "tupnest", "where", "where", "wherecount", "many", "count", "jc", "jc"]
         k = r.choice(choices)
         if k == "m":
             return self.typed_call(cls.m, self.info[level]["m"], A(N(v), SHARED), A(N(v), SHARED), v, True)
+        if k == "called":
+            # an immediately called lambda: the typed call sites of its body are normalised like any other
+            z = r.choice(["z", v])
+            w, x = self.body(level, depth, z)
+            return call(lam(z, w), [N(v)]), call(lam(z, x), [N(v)])
         if k == "val":
             e = call(A(N(v), "val"), [])
             return e, gen.clone(e)
